@@ -144,6 +144,28 @@ def ramped_element(draw, idx):
 
 
 @st.composite
+def overcommitted_completed_by(draw):
+    """
+    scenario template: an over-committed parallel element whose tasks spread unevenly over its clients (3 or 5 one-client tasks on 2 clients:
+    one client's row ends in a filler), completed by its first - short - task while the other client still has a task of the element ahead
+    of it; two or three more elements follow, because a worker that loses count of its join points only shows later
+    """
+    def req(service):
+        return {"pre": 0, "wire": [[0, service]], "post": 0, "outcome": "ok", "shape": "dict", "weight": 1, "unit": "ops"}
+
+    n = draw(st.sampled_from([3, 5, 5]))
+    tasks = [{"name": "oc0", "clients": 1, "stride": 1, "mode": "iterations", "warmup_iterations": None, "iterations": draw(st.integers(1, 2)),
+              "requests": [req(draw(st.sampled_from([1 / 8, 0.5])))]}]
+    for j in range(1, n):
+        tasks.append({"name": f"oc{j}", "clients": 1, "stride": 1, "mode": "iterations", "warmup_iterations": None,
+                      "iterations": draw(st.integers(2, 5)), "requests": [req(draw(st.sampled_from([0.5, 1.0, 2.5])))]})
+    out = [{"parallel": tasks, "clients": 2, "completed_by": draw(st.sampled_from(["oc0", "oc0", "any"]))}]
+    for k in range(draw(st.integers(2, 3))):
+        out.append(draw(leaf(f"after{k}", max_clients=2)))
+    return out
+
+
+@st.composite
 def two_completed_by_elements(draw, errors=False):
     """
     scenario template (state carried from one completed-by element to the next): the completing task of the first element runs on
@@ -187,6 +209,8 @@ def race_case(draw, min_elements=1, max_elements=4, errors=False, allow_complete
         schedule = draw(two_completed_by_elements(errors))
     elif allow_completed_by and draw(st.integers(0, 7)) == 0:
         schedule[draw(st.integers(0, n - 1))] = draw(ramped_element(99))
+    elif allow_completed_by and allow_overcommit and max_elements >= 3 and draw(st.integers(0, 11)) == 0:
+        schedule = draw(overcommitted_completed_by())
     n_hosts = draw(st.sampled_from([1, 1, 2, 2, 3][: 2 * max_hosts - 1]))
     hosts = [draw(st.integers(1, 4)) for _ in range(n_hosts)]
     if template:
